@@ -113,7 +113,8 @@ def run(ctx):
     res.check(okl, "R4.3", "str_to_bool-lowercases", sb.where(), "lookup on the lower-cased input", "str_to_bool no longer lower-cases before both lookups")
     # the ONLY normalisation between the input and the table lookup is case folding (documented: case-insensitive literals)
     keys = sorted(set(expr(sb, c.args[1]) for c in conts))
-    res.check(all(re.fullmatch(r"to_lowercase\((as_ref\()?val\)?\)", k) for k in keys) and bool(keys), "R4.3", "str_to_bool-only-case-folding", sb.where(), "table key = to_lowercase(input)",
+    keys = sorted(set(strip_transparent(k) for k in keys))
+    res.check(all(k == "to_lowercase(val)" for k in keys) and bool(keys), "R4.3", "str_to_bool-only-case-folding", sb.where(), "table key = to_lowercase(input)",
               "str_to_bool looks up %s: the input is normalised by more than case folding, so strings that are not documented literals are accepted" % keys)
     hay = sorted(expr(sb, c.args[0]).rsplit("::", 1)[-1].strip(")") for c in conts)
     res.check(hay == ["FALSE_LITERALS", "TRUE_LITERALS"], "R4.3", "str_to_bool-tables", sb.where(), "looks up TRUE_LITERALS then FALSE_LITERALS", "str_to_bool consults %s" % hay)
